@@ -544,9 +544,8 @@ fn run_history(input: &str, reference: &[Item], peeks: &[u8], iter_backend: bool
                         return Err(format!("step {step}: two successive peeks differ: {lp:?} then {got:?}"));
                     }
                 }
-                if matches!(got, Some(Item::Err(_))) {
-                    return Ok(ops); // the consumer stops at the first error
-                }
+                // an error seen by peek is not consumed either: further peeks and the following next
+                // return it again (the consumer stops after that next)
                 last_peek = got;
             }
             ops += 1;
